@@ -77,4 +77,10 @@ example : clauseHbSchedule [.start, .cycle 1, .tHb (.obj 1), .xDest (.obj 1) (.o
 example : clauseHbSchedule [.start, .tHb (.obj 1), .cycle 1, .tHb (.obj 1), .tHb (.obj 2), .cycle 2, .tHb (.obj 1)] = [] := by
   decide
 
+-- clause turns: a second command of the same user in one iteration
+example : clauseTurns [.start, .cycle 1, .tInput (.user 1) "a", .tCmd (.user 1) "a", .tInput (.user 2) "x", .tCmd (.user 2) "x",
+    .tInput (.user 1) "b", .cycle 2] ≠ [] := by decide
+example : clauseTurns [.start, .cycle 1, .tInput (.user 1) "a", .tCmd (.user 1) "a", .tInput (.user 2) "x", .tCmd (.user 2) "x",
+    .cycle 2, .tInput (.user 1) "b", .tCmd (.user 1) "b"] = [] := by decide
+
 end NV.C09
